@@ -5,7 +5,7 @@
 import re, glob, os
 C = os.path.join(os.path.dirname(os.path.dirname(os.path.abspath(__file__))), "coq")
 stm = {}
-for f in ("Transfer_Proofs.v", "Transfer_More.v", "Transfer_Cb.v", "Refusals.v", "Session_Proofs.v"):
+for f in ("Transfer_Proofs.v", "Transfer_More.v", "Transfer_Cb.v", "Refusals.v", "Tls_Failures.v", "Session_Proofs.v"):
     src = open(os.path.join(C, f)).read()
     for m in re.finditer(r"Theorem (\w+) ([^:\n]*?) :\n(.*?)\nProof\.", src, flags=re.S):
         stm[m.group(1)] = "forall %s,\n%s" % (m.group(2).strip(), m.group(3))
